@@ -106,6 +106,19 @@ func verifAssume(c bool) {
 	}
 }
 
+// verifAssumeWord: s is a non-empty string over [A-Za-z0-9_] (any length). Under the engine the
+// character class is also recorded for the atom (used by the rope-level string models).
+func verifAssumeWord(s string) {
+	ok := s != ""
+	for i := 0; i < len(s); i++ {
+		c := s[i]
+		if !((c >= 'a' && c <= 'z') || (c >= 'A' && c <= 'Z') || (c >= '0' && c <= '9') || c == '_') {
+			ok = false
+		}
+	}
+	verifAssume(ok)
+}
+
 func verifAssert(c bool, id string) {
 	if !c {
 		verifFailed = append(verifFailed, id)
